@@ -1,14 +1,21 @@
 (** C02 — Shared (fractional) GPU devices are never oversubscribed.
     Statements only; proofs in Proofs/GroupsFit.v and Proofs/Node.v.
-    Proved over the node model: the per-device memory clause, for all histories.
-    Partial: the device-count clause (whole + shared devices in use never exceed
-    the node's GPU count) is evaluated by the cycle monitor c02_ok on the real
-    decisions and by the C14 ground-truth monitor on the real NodeInfo, but is
-    not a theorem: the code's whole-device bookkeeping is history dependent in
-    the presence of nominated pods (known finding C14-device-guard, refuted by
-    C14_device_guard_refuted). *)
+    Proved over the node model: the per-device memory clause, for all histories;
+    the device-count clause (whole + shared devices in use never exceed the
+    node's GPU count) for all histories of guarded binds, evictions, status
+    updates, removals and nominations that hold no GPU (C02_devices_within_count,
+    Proofs/NodeFull.v).
+    Partial: with a nominated (Pipelined) pod holding GPUs on the node the
+    device-count clause is not a theorem: the code's whole-device bookkeeping is
+    history dependent there (known finding C14-device-guard, refuted by
+    C14_device_guard_refuted) and the guards alone do not keep the devices
+    within the count (C02_devices_needs_no_nominated).  On such nodes the clause
+    is evaluated by the cycle monitor c02_ok on the real decisions and by the
+    C14 ground-truth monitor on the real NodeInfo. *)
 From Coq Require Import List ZArith PArith Bool.
 From KaiV Require Import Model.Res Model.Status Model.AMap Model.Node Model.NodeSpec Model.GpuSharing Proofs.Node Proofs.GroupsFit Proofs.GpuSharing.
+From KaiV Require Import Proofs.NodeFull.
+From KaiV Require Run.Cycle.
 Import ListNotations.
 Open Scope Z_scope.
 
@@ -65,3 +72,148 @@ Theorem C02_nonvacuous :
     /\ zget 1 (g_alloc n2) = 100.
 Proof. eexists. eexists. repeat split; vm_compute; reflexivity. Qed.
 Print Assumptions C02_nonvacuous.
+
+(** ** The device-count clause (Proofs/NodeFull.v)
+
+    [devices_in_use ts]: whole GPUs charged to the pods occupying the node
+    (everything not merely nominated) plus [occupied_groups ts], the shared
+    devices holding allocated memory.  [FullBooks] is spelled out in
+    C14_full_books_meaning.  On a node whose books are full and whose idle
+    whole-GPU count is not negative the devices in use are within the count. *)
+Theorem C02_devices_within_count_state : forall n : node,
+  FullBooks n -> 0 <= gpu (n_idle n) ->
+  devices_in_use (tasks_of n) <= gpu (n_alloc n) /\ gpu (n_alloc n) = n_ngpu n.
+Proof. exact devices_within_count_state. Qed.
+Print Assumptions C02_devices_within_count_state.
+
+(** A Bind admitted by the replay guard [bind_guard] (Run/Cycle.v) on such a
+    node, free of nominated GPU holders, leads to such a node again. *)
+Theorem C02_guarded_bind_keeps_count : forall (n : node) (t : task) (n' : node),
+  FullBooks n -> forallb task_wf (tasks_of n) = true -> no_nominated_gpu (tasks_of n) = true ->
+  0 <= gpu (n_idle n) -> bind_wf t = true -> is_st Pipelined t = false ->
+  Run.Cycle.bind_guard n t (t_groups t) = true -> add_task n t = Ok n' ->
+  FullBooks n' /\ no_nominated_gpu (tasks_of n') = true /\ 0 <= gpu (n_idle n')
+  /\ devices_in_use (tasks_of n') <= gpu (n_alloc n').
+Proof. exact guarded_bind_keeps_idle. Qed.
+Print Assumptions C02_guarded_bind_keeps_count.
+
+(** The clause as a theorem: along every history in which each placement passes
+    [bind_guard], each nomination holds no GPU, each update keeps the pod's
+    devices (eviction, un-eviction, status progress) — [guarded_run]: the guard
+    [op_guard] evaluated in every state of the run; removals are free — the
+    whole and shared devices in use never exceed the node's GPU count. *)
+Theorem C02_devices_within_count : forall (n0 : node) (ops : list nop),
+  FullBooks n0 -> forallb task_wf (tasks_of n0) = true -> no_nominated_gpu (tasks_of n0) = true ->
+  0 <= gpu (n_idle n0) -> forallb bind_wf (op_tasks ops) = true -> guarded_run n0 ops = true ->
+  let n := run n0 ops in
+  FullBooks n /\ no_nominated_gpu (tasks_of n) = true /\ 0 <= gpu (n_idle n)
+  /\ devices_in_use (tasks_of n) <= gpu (n_alloc n).
+Proof. exact guarded_devices_within_count. Qed.
+Print Assumptions C02_devices_within_count.
+
+(** what the guard of a history asks of each operation *)
+Theorem C02_op_guard_meaning : forall (n : node) (o : nop),
+  op_guard n o =
+  match o with
+  | OAdd t => if is_st Pipelined t then negb (holds_gpu t) else Run.Cycle.bind_guard n t (t_groups t)
+  | ORemove _ => true
+  | OUpdate t =>
+      negb (is_st Pipelined t && holds_gpu t)
+      && match alookup (t_id t) (n_pods n) with
+         | Some t0 => Bool.eqb (is_shared t0) (is_shared t) && (gpu (charge t0) =? gpu (charge t))
+                      && (t_gmem t0 =? t_gmem t) && Run.NodeObs.list_eqb Pos.eqb (t_groups t0) (t_groups t)
+         | None => true
+         end
+  end.
+Proof. exact op_guard_unfold. Qed.
+Print Assumptions C02_op_guard_meaning.
+
+(** The GPU column of C01 on such nodes: the whole GPUs of the occupying pods
+    (terminating ones included) never exceed the allocatable GPUs. *)
+Theorem C02_occupying_gpus_within_allocatable : forall n : node,
+  FullBooks n -> 0 <= gpu (n_idle n) ->
+  gpu (rsum (map charge (filter (fun t => negb (is_st Pipelined t)) (tasks_of n)))) <= gpu (n_alloc n).
+Proof. exact occupying_gpus_within_allocatable. Qed.
+Print Assumptions C02_occupying_gpus_within_allocatable.
+
+(** Non-vacuity: [nv_node] (two shared devices, a whole-GPU pod, a terminating
+    sharer) meets every hypothesis; the guarded history [fv_ops] fills the
+    node (4 devices in use of 4) and a further sharer on a fresh device is
+    refused by the guard. *)
+Theorem C02_devices_nonvacuous :
+  FullBooks nv_node
+  /\ forallb task_wf (tasks_of nv_node) = true /\ forallb bind_wf (op_tasks fv_ops) = true
+  /\ no_nominated_gpu (tasks_of nv_node) = true /\ 0 <= gpu (n_idle nv_node)
+  /\ nn_run nv_node fv_ops = true /\ guarded_run nv_node fv_ops = true
+  /\ occupied_groups (tasks_of nv_node) = 2 /\ releasing_groups (tasks_of nv_node) = 1
+  /\ devices_in_use (tasks_of nv_node) = 3
+  /\ map t_id (tasks_of (run nv_node fv_ops)) = [2; 3; 5; 6; 8; 9]%positive
+  /\ gpu (n_idle (run nv_node fv_ops)) = 0
+  /\ devices_in_use (tasks_of (run nv_node fv_ops)) = 4
+  /\ Run.Cycle.bind_guard (run nv_node (firstn 2 fv_ops)) (x_sh 7 Allocated 40 [4%positive]) [4%positive] = false.
+Proof. exact full_books_nonvacuous. Qed.
+Print Assumptions C02_devices_nonvacuous.
+
+(** Where the clause is false in the model: with a nominated sharer holding a
+    device.  [guarded_run_lax] = [guarded_run] without "a nomination holds no
+    GPU".  1-GPU node: a sharer is allocated on fresh device 1 and turned into
+    a nomination (the device counts as idle again; its key stays in the
+    allocated-memory map with value 0); a second sharer is bound into device 1
+    (EnoughIdleResourcesOnGpu and IsTaskAllocatable hold; the bookkeeping's
+    first-user test does not fire, no idle GPU is taken); a whole-GPU pod is
+    bound onto the GPU that still counts as idle: 2 devices in use, 1 GPU.
+    Not a defect of the scheduler as it runs: replayed on the Go code, NodeInfo
+    and GetNodePreferableGpuForSharing behave exactly so, but the allocate
+    action also filters nodes by IsTaskAllocatableOnReleasingOrIdle; the
+    nominated device stands as releasing = -1, idle + releasing = 0, and the
+    last bind is refused.  [bind_guard] alone does not include that filter. *)
+Theorem C02_devices_needs_no_nominated :
+  FullBooks ov_node /\ forallb bind_wf (op_tasks ov_ops) = true /\ 0 <= gpu (n_idle ov_node)
+  /\ guarded_run_lax ov_node ov_ops = true /\ guarded_run ov_node ov_ops = false
+  /\ (let n := run ov_node (firstn 2 ov_ops) in
+      enough_idle_on_gpu n 50 1 = true /\ is_task_allocatable n (x_sh 3 Allocated 50 [1%positive]) = true)
+  /\ is_task_allocatable (run ov_node (firstn 3 ov_ops)) (x_wh 5 Allocated 1) = true
+  /\ is_task_allocatable_on_releasing_or_idle (run ov_node (firstn 3 ov_ops)) (x_wh 5 Allocated 1) = false
+  /\ gpu (n_rel (run ov_node (firstn 3 ov_ops))) = -1
+  /\ gpu (n_idle (run ov_node ov_ops)) = 0
+  /\ gpu (n_alloc (run ov_node ov_ops)) = 1
+  /\ devices_in_use (tasks_of (run ov_node ov_ops)) = 2.
+Proof. exact devices_within_count_needs_no_nominated. Qed.
+Print Assumptions C02_devices_needs_no_nominated.
+
+(** The same at the level the cycle check evaluates ([Run.Cycle.replay]: the
+    Cache calls of a real cycle applied to the model nodes).  [NodeOK n]:
+    [FullBooks n], well-formed tasks, no nominated GPU holder, idle GPUs >= 0.
+    If every call of the cycle is admissible (replay returns [true]: every Bind
+    passed [bind_guard]) and no nomination of the cycle holds a GPU
+    ([nominations_hold_nothing]: evaluated along the replay), every node ends
+    [NodeOK] and its devices in use are within its GPU count. *)
+Theorem C02_cycle_devices_within_count :
+  forall (ts : list Run.Cycle.tinfo) (cs : list Run.Cycle.call) (ns ns' : amap node),
+    TasksBW ts -> NodesOK ns -> nominations_hold_nothing ts ns cs = true ->
+    Run.Cycle.replay ts ns cs = Some (ns', true) ->
+    NodesOK ns'
+    /\ forall nid n, alookup nid ns' = Some n -> devices_in_use (tasks_of n) <= gpu (n_alloc n).
+Proof. exact cycle_devices_within_count. Qed.
+Print Assumptions C02_cycle_devices_within_count.
+
+Theorem C02_cycle_hypotheses_meaning :
+  (forall n, NodeOK n <->
+     (FullBooks n /\ Forall (fun t => task_wf t = true) (tasks_of n)
+      /\ Forall (fun t => (is_st Pipelined t && holds_gpu t) = false) (tasks_of n) /\ 0 <= gpu (n_idle n)))
+  /\ (forall ns, NodesOK ns <-> Forall (fun kn => NodeOK (snd kn)) ns)
+  /\ (forall ts, TasksBW ts <-> Forall (fun ti => bind_wf (Run.Cycle.ti_task ti) = true) ts).
+Proof. exact cycle_hypotheses_unfold. Qed.
+Print Assumptions C02_cycle_hypotheses_meaning.
+
+(** Non-vacuity of the cycle statement: a cycle on [nv_node] that binds a
+    sharer into device 1, evicts the whole-GPU pod, binds a whole-GPU pod onto
+    the last idle GPU and nominates a CPU-only pod. *)
+Theorem C02_cycle_devices_nonvacuous :
+  TasksBW cy_tasks /\ NodesOK cy_nodes /\ nominations_hold_nothing cy_tasks cy_nodes cy_calls = true
+  /\ exists ns', Run.Cycle.replay cy_tasks cy_nodes cy_calls = Some (ns', true)
+       /\ exists n, alookup 1%positive ns' = Some n
+            /\ map t_id (tasks_of n) = [2; 3; 4; 5; 8; 9]%positive
+            /\ gpu (n_idle n) = 0 /\ devices_in_use (tasks_of n) = 4 /\ gpu (n_alloc n) = 4.
+Proof. exact cycle_devices_nonvacuous. Qed.
+Print Assumptions C02_cycle_devices_nonvacuous.
